@@ -153,7 +153,11 @@ func (sidEngine) Run(ctx *fw.Ctx, cs any) {
 				}
 				msg := pkt.Msg6(byte(typ), xid, opts)
 				for d := 0; d < depth; d++ {
-					msg = pkt.Relay6(12, byte(d), net.ParseIP("2001:db8:1::1"), net.ParseIP("fe80::1"), nil, msg)
+					var ro []pkt.Opt6
+					if depth <= 2 {
+						ro = relayAgentOpts6(rng) // (what relay agents add to their own layer is not the client's message)
+					}
+					msg = pkt.Relay6(12, byte(d), net.ParseIP("2001:db8:1::1"), net.ParseIP("fe80::1"), ro, msg)
 				}
 				has := sid != nil
 				differs := has && !bytes.Equal(sid, own)
